@@ -45,7 +45,8 @@ class TemplateError(Exception):
 
 
 class Source:
-    def __init__(self, name, path, text, line_map=None):
+    def __init__(self, name, path, text, line_map=None, root=None):
+        self.root = root or self
         self.name = name
         self.path = path              # repo-relative path of the underlying file
         self.text = text
@@ -141,6 +142,7 @@ class Log:
         self.functions = []        # functions under contract: "path::fn"
         self.external = []         # external_body functions (assumptions)
         self.sources = set()
+        self.canaries = 0
 
     def rule(self, r, msg):
         self.rules.append("%s %s" % (r, msg))
@@ -200,7 +202,7 @@ def _find_all(toks, pat):
     return res
 
 
-def emit_fn(out, src, item, spec, log, where):
+def emit_fn(out, src, item, spec, log, where, canary=False):
     """item: rsscan.Item (kind fn) whose tokens index into src.text; spec: FnSpec"""
     toks = item.toks
     qual = "%s::%s" % (where, item.name)
@@ -211,6 +213,9 @@ def emit_fn(out, src, item, spec, log, where):
     log.functions.append(qual)
     edits = []   # (char_a, char_b, kind, payload) ; a==b for insertions. payload list of (text, vc_line)
     has_body = item.body_open >= 0
+    if canary and has_body and not spec.external_body and not spec.keep:
+        log.canaries += 1
+        spec.start = [("        proof { assert(false); } // CANARY %d fn %s" % (log.canaries, item.name), spec.vc_line)] + list(spec.start)
     if not has_body and (spec.start or spec.anchors or spec.loops):
         raise TemplateError("%s has no body but the contract has body sections" % qual)
     sig_end_tok = item.body_open if has_body else len(toks) - 1      # index of `{` or of `;`
@@ -424,10 +429,24 @@ def _struct_emit(out, src, item, derives, log):
         log.rule("R2", "struct %s: fields %s made pub" % (item.name, ", ".join(made)))
 
 
-def build(vc_path, repo_root, defines=None):
+def build(vc_path, repo_root, defines=None, canary=False):
     """returns (text, origins, log). defines: dict of NAME->str for `//@if NAME` ... `//@endif` sections."""
     defines = defines or {}
-    lines = open(vc_path).read().split("\n")
+    lines = []          # (text, "file:line")
+
+    def load(path, depth=0):
+        if depth > 8:
+            raise TemplateError("include depth exceeded")
+        base = os.path.basename(path)
+        for k, l in enumerate(open(path).read().split("\n")):
+            if l.strip().startswith("//@include "):
+                inc = os.path.join(os.path.dirname(path), l.strip()[len("//@include "):].strip())
+                if not os.path.exists(inc):
+                    raise TemplateError("include %s not found" % inc)
+                load(inc, depth + 1)
+            else:
+                lines.append((l, "%s:%d" % (base, k + 1)))
+    load(vc_path)
     out = Out()
     log = Log()
     sources = {}
@@ -462,7 +481,7 @@ def build(vc_path, repo_root, defines=None):
         block = None
         src, item = b["src"], b["item"]
         if b["kind"] == "fn":
-            emit_fn(out, src, item, b["fns"][item.name], log, src.path)
+            emit_fn(out, src, item, b["fns"][item.name], log, src.path, canary)
             return
         toks = item.toks
         where = "%s::%s" % (src.path, " ".join(norm(item.header())) if b["kind"] == "impl" else item.name)
@@ -484,7 +503,7 @@ def build(vc_path, repo_root, defines=None):
                     log.dropped.append("%s::%s" % (where, sub.name))
                     continue
                 seen.add(sub.name)
-                emit_fn(out, src, sub, spec, log, where)
+                emit_fn(out, src, sub, spec, log, where, canary)
             elif not b["noassoc"]:
                 out.repo(src, sub.start, sub.end)
                 out.raw("\n")
@@ -494,8 +513,11 @@ def build(vc_path, repo_root, defines=None):
         out.raw("}\n")
 
     while i < n:
-        line = lines[i]
-        lineno = i + 1
+        line, lineno = lines[i]
+        if "${" in line:
+            for dk, dv in defines.items():
+                if isinstance(dv, str):
+                    line = line.replace("${%s}" % dk, dv)
         s = line.strip()
         i += 1
         if s.startswith("//@if "):
@@ -538,7 +560,7 @@ def build(vc_path, repo_root, defines=None):
                 if not mm:
                     raise TemplateError("%s:%d: bad expand" % (vc_path, lineno))
                 mname, args = mm.group(1), mm.group(2)
-                defs = [it for it in base.items if it.kind == "macro_rules" and it.name == mname]
+                defs = [it for it in base.root.items if it.kind == "macro_rules" and it.name == mname]
                 if not defs:
                     raise TemplateError("macro %s not found in %s" % (mname, base.path))
                 # the invocation must exist in the file (what rustc expands)
@@ -547,12 +569,10 @@ def build(vc_path, repo_root, defines=None):
                 if not calls:
                     raise TemplateError("invocation %s!(%s) not found in %s" % (mname, args, base.path))
                 try:
-                    text, lm = macroexp.expand(base.text, defs[0], args)
+                    text, lm = macroexp.expand(base.root.text, defs[0], args)
                 except macroexp.MacroError as e:
                     raise TemplateError("macro expansion failed: %s" % e)
-                if base.line_map is not None:
-                    lm = [base.line_map[min(x - 1, len(base.line_map) - 1)] for x in lm]
-                sources[nm] = Source(nm, base.path, text, lm)
+                sources[nm] = Source(nm, base.path, text, lm, root=base.root)
                 log.rule("R5", "%s!(%s) of %s instantiated" % (mname, args, base.path))
             elif word == "struct":
                 mm = re.match(r"(\S+)\s*::\s*(\w+)\s*(?:derive\(([^)]*)\))?", rest)
